@@ -34,6 +34,9 @@ pub fn pair((a, b): (Val, Val)) -> Val {
 pub fn list(v: Vec<Val>) -> Val {
     Val::L(v)
 }
+pub fn items(v: Val) -> Vec<Val> {
+    cvm::ast::items_of(v)
+}
 pub fn cnt(n: usize) -> Val {
     Val::N(n)
 }
@@ -75,8 +78,13 @@ pub fn tag_err<'a>(e: Rich<'a, char>) -> Rich<'a, char> {
 }
 pub fn cust<'a, 'b, const K: u8, const OK: bool>(inp: &mut InputRef<'a, 'b, &'a str, SE<'a>>) -> Result<Val, Rich<'a, char>> {
     let before = inp.cursor();
-    for _ in 0..K {
-        if inp.next().is_none() {
+    for _ in 0..(K % 10) {
+        if K >= 10 {
+            if inp.peek().is_none() {
+                return Err(Rich::custom(inp.span_since(&before), "CU"));
+            }
+            inp.skip();
+        } else if inp.next().is_none() {
             return Err(Rich::custom(inp.span_since(&before), "CU"));
         }
     }
